@@ -580,3 +580,77 @@ func memberFact(cf *eng.CFG, ft eng.Fact) (*ast.IndexExpr, bool) {
 	}
 	return nil, false
 }
+
+// HeadLoc is the location every iteration of the loop passes: the loop-header block of a
+// range statement, the condition of a for statement.
+func (el elemLoop) HeadLoc(cf *eng.CFG) eng.Loc {
+	if rg, ok := el.Stmt.(*ast.RangeStmt); ok {
+		for _, b := range cf.G.Blocks {
+			if b.Live && b.Kind.String() == "RangeLoop" && b.Stmt == ast.Stmt(rg) {
+				return eng.Loc{B: b, I: -1}
+			}
+		}
+		return eng.Loc{}
+	}
+	return cf.LocOf(el.Head)
+}
+
+// checkBalancedLocks: a function that acquires a mutex releases it before every return (directly
+// or by a defer registered on the way).  lockHandoffs lists the functions that hand a held
+// lock to a goroutine they start or to their caller, each confirmed by reading.
+var lockHandoffs = map[string]string{}
+
+func checkBalancedLocks(c *Ctx, pkgs ...string) int {
+	n := 0
+	for _, f := range c.P.Funcs() {
+		in := false
+		for _, pk := range pkgs {
+			if eng.Short(f.Pkg.PkgPath) == pk {
+				in = true
+			}
+		}
+		if !in {
+			continue
+		}
+		info := f.Info()
+		acquired := map[string]bool{}
+		deferred := map[string][]eng.Loc{}
+		cf := f.CFG()
+		f.Walk(func(x ast.Node) bool {
+			switch s := x.(type) {
+			case *ast.DeferStmt:
+				if id, kind := eng.LockCallID(info, s.Call); kind == "unlock" {
+					deferred[id] = append(deferred[id], cf.LocOf(s))
+				}
+				return false
+			case *ast.CallExpr:
+				if id, kind := eng.LockCallID(info, s); kind == "lock" {
+					acquired[id] = true
+				}
+			}
+			return true
+		})
+		if len(acquired) == 0 {
+			continue
+		}
+		li := f.Locks()
+		for i, ex := range cf.Exits(true) {
+			held := li.AtExit(ex)
+			for id := range held {
+				if !acquired[id] {
+					continue
+				}
+				released := false
+				for _, d := range deferred[id] {
+					if cf.Dominates(d, ex) {
+						released = true
+					}
+				}
+				n++
+				_, handoff := lockHandoffs[f.Name+" | "+id]
+				c.Check(K(f.Name, "return#"+itoa(i)+" releases "+id), ex.B.Nodes[ex.I].Pos(), released || handoff, "a mutex acquired by a function is released before it returns (a return with the mutex held blocks every later user of it)", "return reachable with "+id+" still held")
+			}
+		}
+	}
+	return n
+}
